@@ -620,6 +620,9 @@ func RunCheck(id, tier string, seed uint64) int {
 			}
 		case "fixed":
 			fixedChecked++
+			if i := strings.Index(detail, "inconclusive:"); !fails && i >= 0 {
+				agg.AddInconclusive("reproducer of " + f.ID + ": " + strings.TrimSpace(firstLines(detail[i+len("inconclusive:"):], 1)))
+			}
 			if fails {
 				agg.Violations = append(agg.Violations, Violation{Property: id, Engine: "repro:" + f.Repro, Index: 0, Seed: seed, Tier: tier,
 					Signature: "regression/" + f.ID, Message: "a defect recorded as fixed (" + f.Commit + ") is back: " + f.What + "\n" + detail})
@@ -871,9 +874,49 @@ func runRepro(exe, raceExe string, prop *Property, name string) (bool, string) {
 		}
 		return true, "reproducer crashed: " + fmt.Sprint(err) + "\n" + firstLines(s, 30)
 	case <-time.After(120 * time.Second):
-		cmd.Process.Kill()
-		return true, "reproducer did not finish within 120 s (hang)"
+		// The deadline itself is not a verdict.  A reproducer that burnt CPU all the
+		// time does not return (that is what the original defects of this kind did); one
+		// that sits in a blocking operation of the repository with no harness scheduler
+		// in the picture is blocked; anything else (a loaded machine, a controlled
+		// schedule waiting for its own watchdog) is inconclusive.
+		cpu := procCPU(cmd.Process.Pid)
+		cmd.Process.Signal(syscall.SIGQUIT)
+		select {
+		case <-done:
+		case <-time.After(10 * time.Second):
+			cmd.Process.Kill()
+			<-done
+		}
+		dump := out.String()
+		switch {
+		case cpu > 60:
+			return true, fmt.Sprintf("reproducer did not return: %.0f s of CPU time consumed in 120 s", cpu)
+		case reproBlocked(dump):
+			return true, "reproducer is blocked inside the repository:\n" + firstLines(dump, 40)
+		}
+		return false, "inconclusive: reproducer did not finish within 120 s, used little CPU and is not blocked inside the repository"
 	}
+}
+
+// reproBlocked: the dump (SIGQUIT) shows a goroutine parked in a blocking
+// operation with a repository frame on its stack while no goroutine of the
+// dump belongs to a controlled schedule (whose parked goroutines are expected).
+func reproBlocked(dump string) bool {
+	if strings.Contains(dump, "conc.(*Sched)") {
+		return false
+	}
+	for _, block := range strings.Split(dump, "\n\n") {
+		if !strings.HasPrefix(block, "goroutine ") || !strings.Contains(block, "go-collection-framework/v4") {
+			continue
+		}
+		head := firstLines(block, 1)
+		for _, st := range []string{"[chan send", "[chan receive", "[select", "[sync.Mutex.Lock", "[sync.RWMutex", "[semacquire", "[sync.Cond.Wait", "[sync.WaitGroup.Wait"} {
+			if strings.Contains(head, st) {
+				return true
+			}
+		}
+	}
+	return false
 }
 
 func firstLines(s string, n int) string {
